@@ -2,10 +2,10 @@ package sim
 
 import (
 	"bytes"
-	"flag"
 	"crypto/sha256"
 	"encoding/binary"
 	"encoding/json"
+	"flag"
 	"fmt"
 	"os"
 	"os/exec"
@@ -116,7 +116,7 @@ type Env struct {
 	Deadline time.Time
 	Known    []KnownFinding
 	Stats    *Stats
-	Budget   int // cases per shard
+	Budget   int  // cases per shard
 	Census   bool // count every discrepancy signature, never fail (triage aid)
 }
 
